@@ -1,6 +1,60 @@
-import BR.Model.Disk
+import BR.Lemmas.DiskProxy
+import BR.Bridge.Disk
+import BR.Bridge.Lru
+import BR.Lemmas.Toy
+/-!
+# C04 — at quiescence the cache directory holds exactly the indexed entries
+
+Model M4 (`BR.Disk`).  `Reach` = every state reachable from an empty cache by any finite sequence of
+Put / get / Contains requests — with every stream (exact, short, long, failing reader, wrong hash),
+every reservation/commit refusal and every back-end answer or fault — and runs of the background
+remover.  Files are compared by (path, length); `elementPath` is the path `getElementPath` derives
+from an index entry (key space directory, two-character fan-out, hash, logical size for compressed
+CAS, random suffix, `.v1` for raw CAS).
+-/
 namespace BR.Props.C04
-open BR.Disk
-theorem placeholder : emptyZstdBlob.length = 9 := by decide
-#print axioms placeholder
+open BR.Disk BR.Lru BR.CasBlob
+
+/-- **in every reachable state** the regular files are exactly the files of the indexed entries plus
+those of the entries still queued for the background remover, each with the recorded on-disk
+length, and no two share a path: nothing else survives (no leftover of a rejected, failed or
+aborted upload or fetch, no predecessor of an overwritten key, no evicted entry) and no indexed
+entry lacks its file. -/
+theorem files_are_index_plus_queue {C : Codec} {H : Bytes → String} {cfg : Cfg} {m hl : Int}
+    (h0 : 0 ≤ m) (h1 : m < 9223372036854775808) {d : Disk} (hr : Reach C H cfg m hl d) :
+    (d.files.map frec).Perm ((qOf d.lru.order ++ d.lru.queue).map fspec) ∧ (d.files.map Prod.fst).Nodup :=
+  ⟨(reach_inv h0 h1 hr).1.files_ok, (reach_inv h0 h1 hr).1.paths_nodup⟩
+
+/-- **at quiescence** (no request in flight, pending deletions drained): directory = index -/
+theorem quiescent_dir_eq_index {C : Codec} {H : Bytes → String} {cfg : Cfg} {m hl : Int}
+    (h0 : 0 ≤ m) (h1 : m < 9223372036854775808) {d : Disk} (hr : Reach C H cfg m hl d) :
+    ((drain d).files.map frec).Perm ((qOf (drain d).lru.order).map fspec) ∧ (drain d).lru.queue = [] ∧
+      (drain d).lru.order = d.lru.order :=
+  ⟨(inv_drain (reach_inv h0 h1 hr).1).2.1, (inv_drain (reach_inv h0 h1 hr).1).2.2, rfl⟩
+
+/-- a refused upload leaves no file behind (stated for one step from any state satisfying the invariant) -/
+theorem refused_put_leaves_nothing (C : Codec) (H : Bytes → String) {d : Disk} (h : DiskInv d) (kind : Kind)
+    (hash : String) (size : Int) (s : Stream) (rnd : String)
+    (hno : (put C H d kind hash size s rnd).2 ≠ .ok) : (put C H d kind hash size s rnd).1.files = d.files :=
+  (put_nack_unchanged C H h kind hash size s rnd hno).1
+
+/-- the path the evictor / loader derives from an index entry is the path the file was created under -/
+theorem evictor_path_is_created_path (kind : Kind) (hash : String) (hlen : hash.length = 64) (v : Item) :
+    elementPath (lookupKey kind hash) v = fileLocation kind v.legacy hash v.size v.random :=
+  elementPath_lookupKey kind hash hlen v
+
+/-! non-vacuity: a reachable state with an overwrite and a failed upload; after draining, one file -/
+def hA : String := "aaaaaaaaaaaaaaaaaaaaaaaaaaaaaaaaaaaaaaaaaaaaaaaaaaaaaaaaaaaaaaaa"
+def cfg0 : Cfg := { mode := .identity, maxBlobSize := 1000000, maxProxyBlobSize := 1000000, hasProxy := false }
+def Hc : Bytes → String := fun _ => hA
+def st1 : Disk := (put ToyU.codec Hc (init cfg0 40960 0) .cas hA 3 ⟨[1, 2, 3], false⟩ "r1").1
+def st2 : Disk := (put ToyU.codec Hc st1 .cas hA 3 ⟨[1, 2, 3], false⟩ "r2").1
+def st3 : Disk := (put ToyU.codec Hc st2 .cas hA 3 ⟨[1, 2], false⟩ "r3").1
+
+example : st2.files.length = 2 ∧ (drain st3).files.length = 1 ∧ st3.lru.order.length = 1 := by decide +kernel
+
+#print axioms files_are_index_plus_queue
+#print axioms quiescent_dir_eq_index
+#print axioms refused_put_leaves_nothing
+#print axioms evictor_path_is_created_path
 end BR.Props.C04
